@@ -283,6 +283,43 @@ def run(ctx, progs):
             ok = is_call(x, 'Address::unchecked_add') and mask_term(x[2][1]) and is_call(m, 'Not::not') and mask_term(m[2][0])
         ctx.ob("R19.3.unchecked_align_up", "address::Address::unchecked_align_up", ok, b.where() if b else "", f"return term = {tstr(r) if r else '?'}; required: unchecked_add(self, p-1) & !(p-1)")
 
+        # ---- R19.4 every Option-returning ("checked") function of the address module reports overflow through its None: no plain
+        # `+ - *` (an `Assert Overflow` edge: panic in checked builds, silent wrap in release) on values that come from its
+        # parameters, unless the ordering closure shows it cannot overflow (e.g. `p - 1` behind `assert_ne!(p, 0)`)
+        from . import c07
+        n4 = 0
+        for b in prog.bodies:
+            if not b.key.startswith("address::") and "as address::Address>" not in b.key:
+                continue
+            root = prog.by_id.get(b.root, b) if b.kind == "Closure" else b
+            f = prog.fns.get(root.id)
+            out = prog.types[f["output"]]["s"] if f else ""
+            if not out.startswith("std::option::Option<"):
+                continue
+            n4 += 1
+            fnkey = strip_generics(b.root) if (b.kind == "Closure" and b.root) else b.key
+            for e in c07._edges_of_all(prog, b):
+                if not (e["kind"].startswith("Overflow:") or e["kind"] == "arith_generic"):
+                    continue
+                why = c07.auto_discharge(b, e)
+                if not why:
+                    row = c07.table_lookup(b, fnkey, e)
+                    why = f"[reviewed, {row[3]}] {row[4]}" if row else None
+                if not why and e["kind"] == "arith_generic" and e.get("callee", "").endswith("sub") and len(e["ops"]) == 2 \
+                        and is_call(deep_strip(e["ops"][1]), "one"):
+                    # the alignment idiom of this trait: `mask = p - 1` next to `assert_ne!(p, 0)` in the same function (the
+                    # documented "p is a non-zero power of two" contract, as in checked_align_up)
+                    x = deep_strip(e["ops"][0])
+                    for pos2, t2 in b.terms():
+                        if t2["k"] == "call" and t2.get("t") is None and "assert_failed" in (t2.get("callee") or ""):
+                            for r in b.facts_at(pos2):
+                                if r[0] == 'cmp' and r[1] == 'Eq' and {0: deep_strip(r[2]), 1: deep_strip(r[3])} and \
+                                        ((deep_strip(r[2]) == x and is_call(deep_strip(r[3]), "zero")) or (deep_strip(r[3]) == x and is_call(deep_strip(r[2]), "zero"))):
+                                    why = "`p - 1` where the same function asserts p != 0 (documented power-of-two contract of the alignment helpers)"
+                ctx.ob("R19.4.checked_fn_arithmetic", f"{b.key}|{e['kind']}|{e['sig']}", bool(why), b.where(e["ln"]),
+                       why or f"plain `{e['kind'].split(':')[-1]}` on {e['sig']} inside an Option-returning address function: an overflow panics or wraps instead of yielding None")
+        ctx.floor("R19.4.checked_fns", n4, 5)
+
     ctx.config = "witness"
     witness.run(ctx, "c19")
     ctx.not_decided = ["numerical results of the core integer intrinsics (trusted)"]
